@@ -1,5 +1,6 @@
 import Gomjml.Gen.LengthSites
 import Gomjml.Core.Widths
+import Gomjml.Core.Lengths
 /-! # C10 — width flow: boxes nest and Outlook pixel widths match the responsive layout (property theorems only)
 
 `Widths.impl` is the Model of the code's width flow (tied to the code by the exact correspondence run of `hx C10`);
@@ -99,6 +100,12 @@ example : groupPx 480 2 (.pct 60 1) = 288 ∧ groupChildPx 288 2 (.pct 25 1) = 7
 example : (0 : Int) ≤ blockW ⟨600, none, .sec ⟨0, 0, 0, 0⟩ []⟩ ∧ Item.Sane (.col ⟨.pct 40 1, ⟨0, 0, 0, 0⟩, .other⟩) := by
   refine ⟨by decide, ?_⟩
   simp [Item.Sane, ColW.Sane]
+
+/-- the horizontal values `ParseHorizontalSpacing` picks out of a padding shorthand are CSS's left and right, for one to four
+    values (missing values are taken from the opposite side); anything else is no shorthand.  The Model of the function
+    (`Lengths.hspacing`: `strings.Fields`, this choice, `ParsePixel` on plain decimals) is tied to the code by correspondence -/
+theorem C10_horizontal_pair_is_css {α : Type} (vs : List α) :
+    Gomjml.Lengths.hsel vs = (Gomjml.Lengths.cssSides vs).map (fun s => (s.2.2.2, s.2.1)) := Gomjml.Lengths.hsel_css vs
 
 /-- **where an authored length becomes a number** (regenerated): every call, outside package `styles`, of a `styles` length
     parser or of a `strconv` / `Sscan` number parser, by function and number of calls.  The width computations of section,
